@@ -122,6 +122,12 @@ void StructAssignmentManager::assign_struct_member(
             }
             assign_value = 0;
         }
+        // same range check as a store into a plain variable of that type
+        if (!member_var->is_pointer && !is_union_member) {
+            interpreter_->check_type_range(member_var->type, assign_value,
+                                           var_name + "." + member_name,
+                                           member_var->is_unsigned);
+        }
         member_var->value = assign_value;
         if (is_union_member) {
             member_var->current_type =
@@ -335,6 +341,12 @@ void StructAssignmentManager::assign_struct_member(
                       "Unsigned struct member %s.%s assigned negative value ");
         }
         member_value = 0;
+    }
+    // same range check as a store into a plain variable of that type
+    if (!member_var->is_pointer && !is_union_member) {
+        interpreter_->check_type_range(member_var->type, member_value,
+                                       target_full_name,
+                                       member_var->is_unsigned);
     }
 
     member_var->value = member_value;
@@ -648,6 +660,13 @@ void StructAssignmentManager::assign_struct_member_array_element(
                 "WARNING: Unsigned struct member %s.%s[%d] assigned negative ");
         }
         adjusted_value = 0;
+    }
+    // same range check as a store into an element of a plain array
+    if (member_var->type >= TYPE_ARRAY_BASE) {
+        interpreter_->check_type_range(
+            static_cast<TypeInfo>(member_var->type - TYPE_ARRAY_BASE),
+            adjusted_value, var_name + "." + member_name,
+            member_var->is_unsigned);
     }
 
     member_var->array_values[index] = adjusted_value;
